@@ -185,6 +185,101 @@ theorem end_is_poll_or_drop (s : Svc) (k d : Nat) (hk : s.futs k = .alive d) :
   · rfl
   · rename_i hn; simp [hn] at ho
 
+/-! ### Configuration reaches the service whatever the construction path
+
+`Acceptor::new` / `set_handshake_timeout` / `clone` / `ServiceFactory::new_service` (same shape in all six
+flavours, `source_shape` below).  A multi-worker server clones the factory for every worker and builds
+the service from the clone. -/
+
+/-- `clone` copies the whole configuration, so `new_service` on a clone gives the same service -/
+theorem clone_keeps_config (a : Acceptor) : a.clone = a ∧ a.clone.newService = a.newService := by
+  cases a; exact ⟨rfl, rfl⟩
+
+/-- configure, clone any number of times (worker copies, combinators owning clones), build the service:
+its handshake timeout is the configured one; never configured: the crate default -/
+theorem configured_timeout_reaches_service (a : Acceptor) (t n : Nat) :
+    (Acceptor.clones n (a.setTimeout t)).newService = t ∧
+    (Acceptor.clones n Acceptor.new).newService = Src.tlsDefaultHandshakeTimeoutMs := by
+  have h : ∀ b : Acceptor, Acceptor.clones n b = b := by
+    induction n with
+    | zero => intro b; rfl
+    | succ m ih => intro b; simp only [Acceptor.clones]; rw [ih b]; exact (clone_keeps_config b).1
+  rw [h, h]; exact ⟨rfl, rfl⟩
+
+/-- `set_handshake_timeout` on one factory changes that factory only: clones made earlier, the original
+a clone was made from, and every service already built keep what they had -/
+theorem set_timeout_is_local (c : Cfg) (f t : Nat) (hf : f < c.facs.length) :
+    ((c.step (.set f t)).facs[f]?).map (·.tmo) = some t ∧
+    (∀ g, g ≠ f → (c.step (.set f t)).facs[g]? = c.facs[g]?) ∧
+    (c.step (.set f t)).svcs = c.svcs ∧ (c.step (.set f t)).facs.length = c.facs.length := by
+  have hs : c.facs[f]? = some c.facs[f] := List.getElem?_eq_getElem hf
+  simp only [Cfg.step, hs]
+  refine ⟨?_, ?_, ?_, ?_⟩
+  · simp [hf, Acceptor.setTimeout]
+  · intro g hg
+    simp [Ne.symm hg]
+  · trivial
+  · simp
+
+/-- `clone` adds an equal, independent factory and touches nothing else -/
+theorem clone_is_a_copy (c : Cfg) (f : Nat) (a : Acceptor) (h : c.facs[f]? = some a) :
+    (c.step (.clone f)).facs = c.facs ++ [a] ∧ (c.step (.clone f)).svcs = c.svcs := by
+  simp [Cfg.step, h, (clone_keeps_config a).1]
+
+/-- `new_service` captures the factory's timeout as it is at that moment -/
+theorem new_service_captures_timeout (c : Cfg) (f : Nat) (a : Acceptor) (h : c.facs[f]? = some a) :
+    (c.step (.svc f)).svcs = c.svcs ++ [a.tmo] ∧ (c.step (.svc f)).facs = c.facs := by
+  simp [Cfg.step, h, Acceptor.newService]
+
+/-- whatever is configured later, a service that has been built keeps its timeout -/
+theorem built_services_keep_timeout (c : Cfg) (ops : List FOp) :
+    ∃ more, (c.run ops).svcs = c.svcs ++ more := by
+  induction ops generalizing c with
+  | nil => exact ⟨[], by simp [Cfg.run]⟩
+  | cons op ops ih =>
+    obtain ⟨m, hm⟩ := ih (c.step op)
+    have h1 : ∃ m1, (c.step op).svcs = c.svcs ++ m1 := by
+      cases op with
+      | new => exact ⟨[], by simp [Cfg.step]⟩
+      | set f t => simp only [Cfg.step]; split <;> exact ⟨[], by simp⟩
+      | clone f => simp only [Cfg.step]; split <;> exact ⟨[], by simp⟩
+      | svc f =>
+        simp only [Cfg.step]; split
+        · exact ⟨[_], rfl⟩
+        · exact ⟨[], by simp⟩
+    obtain ⟨m1, hm1⟩ := h1
+    refine ⟨m1 ++ m, ?_⟩
+    simp only [Cfg.run, List.foldl] at hm ⊢
+    rw [hm, hm1, List.append_assoc]
+
+/-- End to end: timeout `t` configured, the factory cloned `n` times, the service built from the last
+clone, a call at `now` in any state of the thread, a client that stalls for ever, an executor that polls
+(at least) when the timer fires: the deadline armed is `now + t` and the call resolves with `Timeout`
+exactly then — not at the default's 3 s. -/
+theorem cloned_service_deadline (s : Svc) (a : Acceptor) (t n now : Nat) (times : List Nat)
+    (hsorted : times.Pairwise (· ≤ ·)) (hT : now + t ∈ times) :
+    (s.callT (Acceptor.clones n (a.setTimeout t)).newService now).futs s.next = .alive (now + t) ∧
+    drive (now + t) (fun _ => .pending) times = some (.timeout, now + t) := by
+  refine ⟨by simp [(configured_timeout_reaches_service a t n).1, Svc.callT], ?_⟩
+  obtain ⟨o, t', hd, _, _, _, hto, hok, herr⟩ := resolves_by_deadline (now + t) (fun _ => .pending) times hsorted hT
+  cases o with
+  | ok => simp at hok
+  | tlsErr => simp at herr
+  | timeout =>
+    have := hto.mp rfl
+    rw [hd, this.1]
+
+/-- T1: the configuration surface of **all six** acceptor flavours (also those the harness does not
+compile: rustls 0.20–0.22, native-tls) has the shape the `Acceptor` model is written from — `new` starts
+from the default, `set_handshake_timeout` assigns, the hand-written `Clone` copies the timeout,
+`new_service` hands the factory's timeout and a clone of the thread's `MAX_CONN_COUNTER` handle to the
+service, whose `poll_ready` / `call` gate on that counter and arm that timeout.  Regenerated from the
+source text by every check run (`tools/spans/tls.py`). -/
+theorem source_shape :
+    (Src.tlsAcceptShapeRustls020 ++ Src.tlsAcceptShapeRustls021 ++ Src.tlsAcceptShapeRustls022 ++
+      Src.tlsAcceptShapeRustls023 ++ Src.tlsAcceptShapeOpenssl ++ Src.tlsAcceptShapeNativeTls).all (·.2) = true ∧
+    (Src.tlsAcceptShapeOpenssl.map (·.1)).contains "clone_copies_timeout" = true := by decide
+
 /-! ### The defaults (T1: regenerated from accept/mod.rs) -/
 
 /-- default handshake timeout 3 s, default limit 256 handshakes per thread -/
@@ -207,6 +302,13 @@ example : (Svc.init 2 100).Respects hist := by decide
 example : ((Svc.init 2 100).run (hist.take 5)).registered = true ∧ ((Svc.init 2 100).run (hist.take 5)).inProgress = 2 := by decide
 example : ((Svc.init 2 100).run (hist.take 7)).woken = true ∧ ((Svc.init 2 100).run hist).inProgress = 1 := by decide
 example : ((Svc.init 2 100).run (hist.take 5)).futs 1 = .alive 105 := by decide
+/-- two services on one thread (timeouts 100 and 700 ms) share the counter: one call each fills max 2 -/
+example : ((Svc.init 2 100).run [.ready, .call 0, .ready, .callT 700 3, .ready]).registered = true ∧
+    ((Svc.init 2 100).run [.call 0, .callT 700 3]).futs 1 = .alive 703 := by decide
+example : (Svc.init 2 100).Respects [.ready, .call 0, .ready, .callT 700 3, .ready, .poll 1 9 .ok, .ready, .callT 50 10] := by decide
+/-- configure 200 ms, clone for a worker, re-configure the original: the worker's service keeps 200 ms -/
+example : ((Cfg.run {} [.new, .set 0 200, .clone 0, .set 0 900, .svc 1, .svc 0, .new, .svc 2]).svcs) = [200, 900, 3000] := by decide
+example : drive (40 + 200) (fun _ => .pending) [40, 100, 240, 3040] = some (.timeout, 240) := by decide
 /-- a contract-violating history (three calls with max 2): `gate_general`, `guard_lifetime` still apply -/
 example : ((Svc.init 2 100).run [.call 0, .call 0, .call 0, .ready]).inProgress = 3 := by decide
 
